@@ -26,6 +26,12 @@ Check (C09_non_keepalive_ignored :
   (forall k, handle_active (s_ctxs s') k = true -> handle_active (s_ctxs s) k = true)).
 Check (C09_busy_keeps_alive :
   forall s c, 0 < pend_on c (s_pend s) \/ 0 < ch_held_of c (s_chans s) -> 0 < strong s c).
+Check (C09_half_closed_keeps_alive :
+  forall s dt c,
+  0 < ch_held_of c (s_chans s) ->
+  s_chans (fst (step s dt (EShutSub c))) = s_chans s /\
+  s_pend (fst (step s dt (EShutSub c))) = s_pend s /\
+  0 < strong (fst (step s dt (EShutSub c))) c).
 Check (C09_idle_closes :
   forall s c,
   svc_strong (s_ctxs s) c = false -> pend_on c (s_pend s) = 0 -> ch_held_of c (s_chans s) = 0 ->
